@@ -72,7 +72,7 @@ def run(ctx):
         closure(ctx, kind, exe, "n6l1", [2, 1, 2, 1, 3, 1], 1, props)
         # objects set up with the CSTL_*_INITIALIZER macros instead of the init functions: same closure, same model
         closure(ctx, kind, build(ctx, "drv_" + kind[0] + "_macro", kind[3], kind[4], defs=["USE_INITIALIZER"]), "n4l3-macro", [1, 2, 1, 2], 3, props)
-        generated(ctx, kind, exe, "gen-n14l3", [1 + rng.randrange(5) for _ in range(14)], 3, 60, 200, props)
+        generated(ctx, kind, exe, "gen-n12l3", [1 + rng.randrange(5) for _ in range(12)], 3, 50, 60, props)
         steps, n = 20000, 100
     # directed histories beyond the closure: long lists (17..64 nodes) in the orders where merge sort's halves do
     # not interleave (descending, rotated at the middle), ascending, organ pipe, random; after the sort the tail
@@ -98,7 +98,7 @@ def run(ctx):
                consts(vals, 3), props)
     # lists of 2^16 and more elements (sort, push_back after it, reverse)
     from . import p_big
-    p_big.big_phase(ctx, [f"{kind[0]}:70000", f"{kind[0]}:400000"] if ctx.quick else [f"{kind[0]}:70000", f"{kind[0]}:400000", f"{kind[0]}:2000000"])
+    p_big.big_phase(ctx, [f"{kind[0]}:70000", f"{kind[0]}:400000"] if ctx.quick else [f"{kind[0]}:70000", f"{kind[0]}:400000", f"{kind[0]}:1000000"])
     ctx.assumptions += [
         f"TLC and the TLA+ text of the sequence contract in {kind[1]}Ops.tla are trusted",
         "the driver reads head/tail/next/prev links and sizes from the real structs (public headers)",
